@@ -109,6 +109,12 @@ def gen_shape(rng, none_p):
             'sty': rng.choice(['utc', 'utc', 'naive', 120, -330]), 'bare': rng.random() < 0.3}
 
 
+HIST_PROPS = {                       # history family R only (every member there carries 'zone' and 'tag')
+    'zone_core': ('zone', lambda v: v == 'core'),
+    'zone_not_far': ('zone', lambda v: v != 'far'),
+    'tag_low': ('tag', lambda v: v < 2),
+    'tag_odd': ('tag', lambda v: v % 2),
+}
 PROP_TESTS = {
     'color_red': ('color', lambda v: v == 'red'),
     'n_gt2': ('n', lambda v: v > 2),
@@ -197,6 +203,40 @@ def in_closed_hull(v, ring):
 
 
 READABLE = ('bounds', 'convex_hull', 'len', 'centroid', 'geospan')
+# observations of a collection that are functions of its members alone (history family R, see gen_history_case)
+HREAD_FC = ('bounds', 'geospan', 'convex_hull', 'len', 'centroid')
+HREAD_TR = HREAD_FC + ('centroid_distances', 'time_start_diffs', 'has_duplicate_timestamps', 'speed_diffs', 'first', 'last', 'start', 'end')
+EXTENT_READS = ('bounds', 'geospan', 'convex_hull')
+
+
+def canon(v):
+    """an observation as a comparable, printable value (floats by repr so that nan == nan; shapes by identity)"""
+    if isinstance(v, (tuple, list)):
+        return [canon(x) for x in v]
+    if hasattr(v, 'tolist'):                       # numpy arrays and scalars
+        return canon(v.tolist())
+    if isinstance(v, Coordinate):
+        return ['coord'] + [repr(float(x)) for x in v.to_float()]
+    if isinstance(v, bool) or v is None or isinstance(v, (int, str)):
+        return v
+    if isinstance(v, float):
+        return repr(v)
+    if isinstance(v, timedelta):
+        return ['timedelta_us', v // US]
+    if isinstance(v, datetime):
+        return ['datetime_us', of_dt(v)]
+    return ['object', type(v).__name__, id(v)]
+
+
+def full_obs(c):
+    """every observation of HREAD_* on collection c: name -> comparable value (hull by its outline, members by identity)"""
+    out = {}
+    for a in (HREAD_TR if type(c) is Track else HREAD_FC):
+        r = guarded(lambda: len(c) if a == 'len' else getattr(c, a))
+        if r[0] == 'Ok' and a == 'convex_hull':
+            r = ('Ok', [x.to_float() for x in r[1].outline])
+        out[a] = canon(r)
+    return out
 
 
 def read_attrs(c, attrs):
@@ -211,7 +251,15 @@ def run_case(spec):
     keep = list(objs)
     idmap = {id(x): i for i, x in enumerate(objs)}
     fails, stats = [], {'steps': 0, 'skipped': 0, 'asym': 0, 'proper': 0, 'results': 0, 'shrunk': 0, 'hulls': 0, 'classes': [],
-                    'coll_pairs': 0, 'coll_eq_pairs': 0, 'coll_split': 0, 'coll_split_first_true': 0}
+                    'coll_pairs': 0, 'coll_eq_pairs': 0, 'coll_split': 0, 'coll_split_first_true': 0,
+                    'hist_results': 0, 'hist_deep': 0, 'hist_cut_after_read': 0, 'hist_grown_after_read': 0, 'hist_cut_unread': 0,
+                    'hist_full': 0}
+    readlog = {}            # id(collection) -> names of the observations read on it so far (by this harness)
+    extras = []             # literals of the shapes brought in by `+` inside history chains (ids 200..)
+
+    def rd(c, attrs):
+        read_attrs(c, attrs)
+        readlog.setdefault(id(c), set()).update(attrs)
 
     def outcome(r):
         if r[0] != 'Ok':
@@ -233,9 +281,25 @@ def run_case(spec):
         bs = [x.bounds for x in ms]
         return (min(b[0] for b in bs), min(b[1] for b in bs), max(b[2] for b in bs), max(b[3] for b in bs))
 
-    def observe(res, extra_lits, label, src_members):
-        """derived attributes of a RESULT collection must be those of ITS members"""
+    def observe(res, extra_lits, label, src_members, full=False):
+        """derived attributes of a RESULT collection must be those of ITS members;
+        full: every observation of HREAD_* equals that of a freshly constructed collection of the same members"""
         ms = list(res.geoshapes)
+        keep.append(res)
+        readlog.setdefault(id(res), set()).update(HREAD_TR if full else ('bounds', 'convex_hull', 'len'))
+        if full:
+            fresh = guarded(lambda: type(res)(list(ms)))
+            if fresh[0] != 'Ok' or [id(x) for x in fresh[1].geoshapes] != [id(x) for x in ms]:
+                fails.append(('result rebuilt from its members', f'{label}: {type(res).__name__}(members of the result) gives '
+                                                                 f'{fresh[0]} {[idmap[id(x)] for x in fresh[1].geoshapes] if fresh[0] == "Ok" else fresh[1]}'))
+            else:
+                got, want = full_obs(res), full_obs(fresh[1])
+                stats['hist_full'] += 1
+                for a in got:
+                    if got[a] != want[a]:
+                        fails.append((f'derived observation `{a}` of a result = that of its members',
+                                      f'{label}: result.{a} = {str(got[a])[:300]}, a fresh {type(res).__name__} of the same members '
+                                      f'{[idmap[id(x)] for x in ms]} gives {str(want[a])[:300]}'))
         ids = [idmap[id(x)] for x in ms]
         n = len(res)
         it = [idmap[id(x)] for x in res]
@@ -287,8 +351,22 @@ def run_case(spec):
         if k == 'iv':
             q = TimeInterval(to_dt(st[1], st[3]), to_dt(st[2], st[3]))
             return guarded(lambda: c.filter_by_dt(q)), [x for x in ms if x.dt is not None and q.intersects(x.dt)]
+        if k == 'add':          # same class only; the other operand may have been read before as well
+            ocls = Track if st[1] == 'TR' else FeatureCollection
+            others = [build(s_) for s_ in st[2]]
+            for x in others:
+                idmap[id(x)] = 200 + len(extras)
+                extras.append(shape_lit(idmap[id(x)], x))
+            keep.extend(others)
+            oc = ocls(list(others))
+            keep.append(oc)
+            rd(oc, st[3] if len(st) > 3 else [])
+            allx = ms + list(oc.geoshapes)
+            return guarded(lambda: c + oc), (sorted(allx, key=lambda x: of_dt(x.start)) if st[1] == 'TR' else allx)
+        if k == 'copy':
+            return guarded(lambda: c.copy()), ms
         if k == 'prop':
-            key, fn = PROP_TESTS[st[1]]
+            key, fn = PROP_TESTS.get(st[1]) or HIST_PROPS[st[1]]
             if any(key not in x.properties for x in ms):
                 return guarded(lambda: c.filter_by_property(key, fn)), 'KeyError'
             per = [guarded(lambda x=x: bool(fn(x.properties[key]))) for x in ms]
@@ -315,14 +393,64 @@ def run_case(spec):
         coll_ne = [(a, b) for a, b in same_hash if guarded(lambda: bool(members[a] != members[b])) == ('Ok', True)]
         stats['coll_pairs'] += len(coll_ne)
         stats['coll_eq_pairs'] += len(same_hash) - len(coll_ne)
-        read_attrs(coll, spec.get('pre', []))          # derived attributes read (cached) BEFORE filtering
+        rd(coll, spec.get('pre', []))                  # derived attributes read (cached) BEFORE filtering
         for st in spec['steps']:
             kind = st[0]
             exp = None
             lit = None
             extra_lits = '[]'
             if kind == 'read':
-                read_attrs(coll, st[1])
+                rd(coll, st[1])
+                continue
+            if kind == 'hist':
+                # R. read-then-derive history: st[1] = [[reads, op, observe_now], ...] applied as a CHAIN starting from the
+                # source (each op on the result of the one before, after `reads` were evaluated on the collection it is
+                # applied to); st[2]: observations read on the last result.  Every level is judged member by member
+                # against the per-shape calls (identity), observed in full (now, or only at the end), and observed AGAIN
+                # after the levels below it were derived from it; the source is compared with a fresh twin at the end.
+                cur, cur_ms, levels = coll, members, []
+                for depth, (reads, op, now) in enumerate(st[1]):
+                    rd(cur, reads)
+                    r, e = apply_sel(cur, op)
+                    if r is None:
+                        stats['skipped'] += 1
+                        break
+                    stats['steps'] += 1
+                    if e == 'KeyError':
+                        if r != ('Err', 'KeyError'):
+                            fails.append(('filter_by_property_spec', f'history {op[:2]}: {r[0]} instead of KeyError'))
+                        break
+                    if r[0] != 'Ok' or [id(x) for x in r[1].geoshapes] != [id(x) for x in e] or type(r[1]) is not cls:
+                        fails.append((f'filter_exact (history, level {depth + 1})',
+                                      f'{[o[1][0] for o in st[1][:depth + 1]]}: result '
+                                      f'{(kind_of(r[1]), [idmap.get(id(x)) for x in r[1].geoshapes]) if r[0] == "Ok" else r} differs from the '
+                                      f'per-shape selection {[idmap[id(x)] for x in e]}'))
+                        break
+                    res = r[1]
+                    label = 'history ' + ' > '.join(o[1][0] for o in st[1][:depth + 1]) + f' (read before on the parent: {sorted(readlog.get(id(cur), ()))})'
+                    stats['hist_results'] += 1
+                    stats['hist_deep'] += depth > 0
+                    stats['classes'].append('history:' + op[0])
+                    if e and cur_ms:
+                        was_read = bool(readlog.get(id(cur), set()) & set(EXTENT_READS))
+                        ub, pb = union_bounds(e), union_bounds(cur_ms)
+                        if ub != pb:
+                            inside = pb[0] <= ub[0] and pb[1] <= ub[1] and ub[2] <= pb[2] and ub[3] <= pb[3]
+                            stats['hist_cut_after_read' if was_read and inside else 'hist_grown_after_read' if was_read else 'hist_cut_unread'] += 1
+                    levels.append((res, e, label, cur_ms))
+                    if now:
+                        observe(res, listlit(extras), label, cur_ms, full=True)
+                    cur, cur_ms = res, e
+                if levels:
+                    rd(cur, st[2])
+                for res, e, label, src in levels:
+                    if [id(x) for x in res.geoshapes] != [id(x) for x in e]:
+                        fails.append(('source_unchanged', f'{label}: this result changed when it was filtered / read in turn'))
+                    observe(res, listlit(extras), label + ' [at the end of the chain]', src, full=True)
+                if snapshot(coll) != snap or [id(x) for x in coll.geoshapes] != [id(x) for x in members]:
+                    fails.append(('source_unchanged', 'history: the source collection changed'))
+                    snap = snapshot(coll)
+                meta['steps'].append({'step': ['hist', [o[1][:2] for o in st[1]]], 'result': [[idmap[id(x)] for x in lv[1]] for lv in levels]})
                 continue
             if kind == 'chain':
                 # st[1] then st[2] on its result; st[3]: attributes read on the intermediate result first
@@ -339,7 +467,7 @@ def run_case(spec):
                     fails.append(('filter_exact (chain, first)', f'{st[1][:2]}: result differs from the per-shape selection'))
                     continue
                 mid = r1[1]
-                read_attrs(mid, st[3])
+                rd(mid, st[3])
                 r2, e2 = apply_sel(mid, st[2])
                 if r2 is None:
                     stats['skipped'] += 1
@@ -537,6 +665,11 @@ def run_case(spec):
             hs, hf = guarded(lambda: [ipt(c) for c in coll.convex_hull.outline]), guarded(lambda: [ipt(c) for c in fresh.convex_hull.outline])
             if hs != hf:
                 fails.append(('source_unchanged', f'source.convex_hull read after the filters = {hs}, of its members = {hf}'))
+        if spec.get('family') == 'history':
+            got, want = full_obs(coll), full_obs(fresh)
+            for a in got:
+                if got[a] != want[a]:
+                    fails.append(('source_unchanged', f'source.{a} = {str(got[a])[:300]} after the histories, a fresh twin gives {str(want[a])[:300]}'))
         if snapshot(coll) != snap:
             fails.append(('source_unchanged', 'the source collection changed'))
     lit = (f'FK {spec["kind"]} {listlit([shape_lit(i, x) for i, x in enumerate(objs)])} '
@@ -799,6 +932,100 @@ def gen_collision_cases(rng):
     return out
 
 
+# ---- R. read-then-derive histories ----------------------------------------------------------
+# Mechanism class: a derived collection (the result of any of the five filters, of +, copy(), a Track time slice,
+# and results of results) that is not built from its own members alone but carries over state of the collection it
+# was derived from - a shallow / deep copy of the parent (its __dict__ holds every cached_property already read),
+# a shared cache keyed by something both have in common, a constructor shortcut that skips validation / sorting,
+# caches pre-filled "because the parent knew them".  Such state only exists if the parent was OBSERVED before the
+# derivation, and only shows if the derivation changes the observation.  So each collection is a tight core of
+# members plus 1-3 far OUTLIERS that alone define its extent (bounds, geospan, hull) and are separable from the core
+# by every kind of filter (position, time, properties `zone` / `tag`); on it run 4-8 chains of 1-3 derivations, a
+# seeded subset of the observations (bounds, geospan, convex_hull, len, centroid; for Tracks also centroid_distances,
+# time_start_diffs, has_duplicate_timestamps, speed_diffs, first, last, start, end) being read on each collection just
+# BEFORE it is derived from (or none, as control; the first chains meet a source nobody read yet).  Queries: a box
+# around the core, a box around one core member, a half plane keeping some outliers, a point in a core member, the
+# core's time window, instants, property predicates, and + with near / far shapes (the result is LARGER than a parent
+# whose bounds were read), copy().  Every result at every level: exactly the per-shape selection by identity, FRes
+# (Coq: bounds = coll_bounds of its members), and EVERY observation equal to that of a freshly constructed collection
+# of the same members - once right away (or not, seeded) and again after it was derived from in turn; the source is
+# compared with a fresh twin at the end.
+def gen_history_case(rng):
+    kind = rng.choice(['FC', 'TR'])
+    names = HREAD_TR if kind == 'TR' else HREAD_FC
+    cx, cy = rng.randint(-3, 3), rng.randint(-3, 3)
+
+    def small(x, y, zone, dt):
+        k = rng.choice(['pt', 'box', 'box', 'poly', 'line'])
+        r = rng.choice([1, 2])
+        g = {'pt': [x, y], 'box': [x - r, y - r, x + r, y + r], 'poly': [[x - r, y - r], [x + r, y - r], [x, y + r]],
+             'line': [[x - r, y - r], [x + r, y + r]]}[k]
+        return {'k': k, 'g': g, 'dt': dt, 'sty': rng.choice(['utc', 'utc', 120]), 'bare': False,
+                'props': {'zone': zone, 'tag': rng.randint(0, 3), 'color': rng.choice(['red', 'blue']), 'n': rng.randint(0, 5)}}
+
+    def core_dt():
+        if kind == 'FC' and rng.random() < 0.2:
+            return None
+        a = rng.randint(0, 3) * H
+        return [a, a] if rng.random() < 0.5 else [a, a + rng.choice([1, 2]) * H // 2]
+
+    def far_pos():
+        while True:
+            sx, sy = rng.choice([-1, 0, 1]), rng.choice([-1, 0, 1])
+            if sx or sy:
+                return cx + sx * rng.randint(20, 60) + (0 if sx else rng.randint(-2, 2)), cy + sy * rng.randint(15, 40) + (0 if sy else rng.randint(-2, 2))
+
+    core = [small(cx + rng.randint(-2, 2), cy + rng.randint(-2, 2), 'core', core_dt()) for _ in range(rng.randint(2, 6))]
+    outl = []
+    for _ in range(rng.choice([1, 1, 2, 3])):
+        u = rng.random()
+        dt = core_dt() if u < 0.35 else [rng.randint(10, 14) * H] * 2
+        outl.append(small(*far_pos(), rng.choice(['far', 'far', 'core']), dt))
+    shapes = core + outl
+    rng.shuffle(shapes)
+
+    def q(k, g):
+        return {'k': k, 'g': g, 'dt': None, 'props': {}}
+    m = rng.choice(core)
+    mf = _flat(m['g'])
+    big = q('box', [cx - 12, cy - 12, cx + 12, cy + 12])
+    near = q('box', [mf[0] - 3, mf[1] - 3, mf[0] + 3, mf[1] + 3])
+    half = q('box', rng.choice([[cx - 70, cy - 50, cx, cy + 50], [cx, cy - 50, cx + 70, cy + 50], [cx - 70, cy, cx + 70, cy + 50]]))
+    spot = q('pt', [mf[0], mf[1]] if m['k'] != 'pt' and rng.random() < 0.5 else [cx, cy])
+    ev = sorted({t for s_ in core if s_['dt'] for t in s_['dt']}) or [0]
+
+    def op():
+        u = rng.random()
+        if u < 0.40:
+            return [rng.choice(['int', 'int', 'contained_by', 'contained_by', 'contains']), rng.choice([big, big, near, half, spot, spot])]
+        if u < 0.55:
+            a, b = sorted((rng.choice([0, 0, rng.choice(ev)]), rng.choice([4 * H, rng.choice(ev) + H, rng.choice(ev)])))
+            return ['iv', a, b, rng.choice(['utc', 'naive'])] if rng.random() < 0.7 else ['dt', rng.choice(ev), rng.choice(['utc', 120])]
+        if u < 0.78:
+            return ['prop', rng.choice(['zone_core', 'zone_core', 'zone_not_far', 'tag_low', 'tag_odd', 'color_red', 'n_gt2'])]
+        if u < 0.86 and kind == 'TR':
+            return ['tslice', rng.choice([None, None, rng.choice(ev)]), rng.choice([5 * H, rng.choice(ev) + H, None])]
+        if u < 0.95:
+            more = [small(*(far_pos() if rng.random() < 0.6 else (cx + rng.randint(-2, 2), cy + rng.randint(-2, 2))), 'more',
+                          core_dt() or [0, 0] if kind == 'TR' else core_dt()) for _ in range(rng.randint(0, 2))]
+            return ['add', kind, more, reads()]
+        return ['copy']
+
+    def reads():
+        if rng.random() < 0.2:
+            return []
+        r = rng.sample(names, rng.randint(1, 4))
+        if rng.random() < 0.8 and not set(r) & set(EXTENT_READS):
+            r.append(rng.choice(EXTENT_READS))
+        return r
+
+    steps = []
+    for _ in range(rng.randint(4, 8)):
+        steps.append(['hist', [[reads(), op(), rng.random() < 0.6] for _ in range(rng.choice([1, 2, 2, 3]))], reads()])
+    steps.insert(rng.randint(0, len(steps)), ['len'])
+    return {'kind': kind, 'shapes': shapes, 'steps': steps, 'pre': reads() if rng.random() < 0.5 else [], 'family': 'history'}
+
+
 def main():
     ck = Check('C18')
     ck.build_theories(['theories/Props/C18.vo', 'theories/Corr/FilterK.vo'])
@@ -809,7 +1036,8 @@ def main():
     quick = ck.tier == 'quick'
     cases, meta, failing = [], [], {}
     tot = {'steps': 0, 'skipped': 0, 'asym': 0, 'proper': 0, 'results': 0, 'shrunk': 0, 'hulls': 0,
-           'coll_pairs': 0, 'coll_eq_pairs': 0, 'coll_split': 0, 'coll_split_first_true': 0}
+           'coll_pairs': 0, 'coll_eq_pairs': 0, 'coll_split': 0, 'coll_split_first_true': 0,
+           'hist_results': 0, 'hist_deep': 0, 'hist_cut_after_read': 0, 'hist_grown_after_read': 0, 'hist_cut_unread': 0, 'hist_full': 0}
     for _ in range(600 if quick else 12000):
         spec = gen_case(rng)
         lit, m, fails, stats = run_case(spec)
@@ -837,6 +1065,25 @@ def main():
                 ck.count('collide-with-differing-verdicts:' + spec['group'])
             for c in stats['classes']:
                 ck.count('op:' + c)
+    # R. read-then-derive histories (see gen_history_case)
+    for _ in range(250 if quick else 3000):
+        spec = gen_history_case(rng)
+        lit, m, fails, stats = run_case(spec)
+        cases.append(lit)
+        meta.append(m)
+        if fails:
+            failing[len(cases) - 1] = fails
+        for k in tot:
+            tot[k] += stats[k]
+        ck.count('history:' + spec['kind'])
+        for c in stats['classes']:
+            ck.count('op:' + c)
+    ck.cov['history_results_(every_level_of_every_chain)'] = tot['hist_results']
+    ck.cov['history_results_derived_from_a_result'] = tot['hist_deep']
+    ck.cov['history_results_SMALLER_in_extent_than_a_parent_whose_bounds/geospan/hull_were_read_before'] = tot['hist_cut_after_read']
+    ck.cov['history_results_not_inside_the_extent_of_a_parent_whose_bounds/geospan/hull_were_read_before'] = tot['hist_grown_after_read']
+    ck.cov['history_results_with_another_extent_than_a_parent_not_read_before'] = tot['hist_cut_unread']
+    ck.cov['full_observation_comparisons_with_a_fresh_collection_of_the_same_members'] = tot['hist_full']
     ck.cov['evaluations'] = tot['steps'] + tot['results'] + len(cases)
     ck.cov['pairs_of_unequal_members_with_one_hash'] = tot['coll_pairs']
     ck.cov['pairs_of_equal_members'] = tot['coll_eq_pairs']
@@ -906,7 +1153,12 @@ def main():
                    'circles, ellipses, rings; one vertex set in different orders; ordinates -1 vs -2; x vs x*2^-61) or equal (0.0/-0.0, '
                    'same instant in two zones, properties only), adjacent or apart among other shapes, in every order of the group, '
                    'with queries on which the group\'s per-shape verdicts differ, the three spatial filters and chains of them, '
-                   'compared by member identity; '
+                   'compared by member identity; then READ-THEN-DERIVE histories (family R): collections made of a tight core and 1-3 far '
+                   'outliers that alone define the extent, 4-8 chains of 1-3 derivations (the five filters with queries that cut the outliers / '
+                   'part of the core / nothing, Track time slices, + with near and far shapes, copy()), a seeded subset of bounds / geospan / '
+                   'convex_hull / len / centroid (Tracks: + centroid_distances, time_start_diffs, has_duplicate_timestamps, speed_diffs, first, '
+                   'last, start, end) read on each collection just before it is derived from, every result at every level compared in ALL those '
+                   'observations with a freshly constructed collection of the same members, right away and again after it was derived from; '
                    'EVERY result (filter, +, slice, chained filter): bounds = coll_bounds of exactly its members (Coq, FRes), hull vertices '
                    'among its members\' vertices and containing all of them (exact integers), len/iter/bool; source re-read at the end. '
                    'evaluations = collections built + step results compared + results whose derived attributes were read. '
